@@ -92,7 +92,7 @@ CHECKS.update({
  'C16': dict(
    text="Lean theorems over Q for all vectors: rss/mse/smape symmetric; rss, mse, rmspe^2, rmsle^2 (any log), rpd, smape >= 0 and = 0 at y = y_hat; smape_le_two; r2_le_one, r2_self; "
         "adjust_def/adjust_le; fit_through_ends, lineQ_head/getLast, fit_vertical; corrSq_nonneg, corrSq_le_one (list Cauchy-Schwarz). Tie: the exact-Q value of every metric is compared "
-        "with metrics.* / linear_fit.* on vector pairs y != y_hat under a cancellation-scaled 1e-9 tolerance (squares for rooted metrics, np.log values supplied), plus bit-wise predicates "
+        "with metrics.* / linear_fit.* on vector pairs y != y_hat (non-negative for all metrics; signed vectors for residuals, RMSE, SMAPE, R2) under a cancellation-scaled 1e-9 tolerance (squares for rooted metrics, np.log values supplied), plus bit-wise predicates "
         "(symmetry, zeros, bounds, wrappers == metrics(y, m*x+b), best-fit R2 == squared Pearson correlation).",
    note=TB + " IEEE rounding is not modelled: 'to within floating-point rounding' is the tolerance above on dyadic inputs. log is a parameter of the RMSLE theorems.",
    tech="Lean 4 proof (ordered-field algebra over Q with single Mathlib modules) + Layer-N value correspondence with tolerance",
@@ -107,9 +107,9 @@ CHECKS.update({
    ref="DESIGN.md §3 C17"),
  'C18': dict(
    text="Lean theorems for every x-sorted curve over Q, n>=2: hullLower/hullUpper_indices (strictly increasing chain 0..n-1), _strict_turns, _supports (EVERY input point on or above / below EVERY "
-        "chain edge line - the full hull property, via exact orientation identities), hullUpper_eq_reflect; graham_scan in general position (Props/C18G): grahamScan_head, _length, _strict_turns(+closing), _supports_cyclic, _supports_strict, grahamScan_is_hull, angLt_trans, sortAng_sorted; grahamScan_nodup_bounded. Tie: exact comparison of "
+        "chain edge line - the full hull property, via exact orientation identities), hullUpper_eq_reflect; graham_scan in general position (Props/C18G): grahamScan_head, _length, _strict_turns(+closing), _supports_cyclic, _supports_strict, grahamScan_is_hull, angLt_trans, sortAng_sorted; graham_scan on ARBITRARY sets of >= 3 distinct points (Props/C18H, collinear triples and all-collinear sets included): grahamScanD_supports_cyclic (every input point on or right of every edge of the closed output polygon), grahamScanD_head/_length, grahamScanD_boundary_only (a supporting line through every output vertex), grahamScanD_extreme_included (every strict unique maximiser of a linear functional is output); grahamScan_nodup_bounded. Tie: exact comparison of "
         "graham_scan_lower/upper/graham_scan with the model on integer/dyadic coordinates + brute-force hull specification on the real output (extreme vertices, boundary only, clockwise order in general position).",
-   note=TB + " graham_scan on DEGENERATE sets (collinear triples): 'every extreme vertex, only boundary points' is decided relationally by the brute-force specification on sampled point sets (partial for that clause); general position is a theorem.",
+   note=TB + " graham_scan on degenerate sets (collinear triples) is now a theorem too (C18H); the brute-force specification on sampled point sets remains as the direct predicate on the real output.",
    tech="Lean 4 proof (stack = hull-of-prefix invariant with ring-checked orientation identities) + exact differential correspondence + brute-force relational spec",
    ref="DESIGN.md §3 C18"),
 })
@@ -117,9 +117,9 @@ CHECKS.update({
  'C08': dict(
    text="Lean theorems pipeline_wf / pipeline_hull_wf for the composed post-detection pipeline (worst -> corner -> cluster filter -> mapping), for every height function, IoU/score/hull-error oracle, "
         "labelling and threshold: every filter stage is a Sublist of its input, heights are non-increasing from the worst-knee filter on, the mapped output equals reduced[k] for the surviving "
-        "reduced-space knees, is strictly increasing and a subset of the retained points. The simplifier and multi-knee stages are C01/C02 theorems (well-formed reduction; strictly increasing interior knees); Props/C08E pipeline_end_to_end states the conclusion for the WHOLE composition pipelineFull (simplify -> multi-knee -> filters -> cluster filter -> map back). "
+        "reduced-space knees, is strictly increasing and a subset of the retained points. The simplifier and multi-knee stages are C01/C02 theorems (well-formed reduction; strictly increasing interior knees); Props/C08E pipeline_end_to_end states the conclusion for the WHOLE composition pipelineFull (simplify -> multi-knee -> filters -> cluster filter -> map back), and Props/C08F pipelineCfg_end_to_end for EVERY configuration: 5 simplifiers (simplify_wf) x any detector/gates x 3 cluster filters (rank, hull, corners; clusterStage_sublist) x 2 final stages (rdp.mapping, add_points_even). "
         "Tie: the real pipeline exactly as the demos compose it (5 simplifiers x 5 detectors x 4 linkages x 4 ranking modes) compared stage by stage with the models, on synthetic families and the bundled traces.",
-   note=TB + " Each model stage is fed the real output of the previous stage; in addition the whole pipeline is run as ONE model call (pipeline_full, lazily asked oracles) and compared with the real end result.",
+   note=TB + " Each model stage is fed the real output of the previous stage; in addition the whole pipeline of every configuration is run as ONE model call (pipeline_cfg = the monadic twin pipelineCfgM at IO, lazily asked oracles; Lemmas/BridgeCfg pipelineCfgM_id proves the twin at Id IS pipelineCfg) and compared with the real end result stage by stage; every case is evaluated a second time under a different call history (history phase).",
    tech="Lean 4 proof (composition of the stage theorems C07/C12/C13 with a sublist/monotone-map argument) + stage-by-stage exact differential correspondence of the real pipeline",
    ref="DESIGN.md §3 C08"),
  'C12': dict(
@@ -158,7 +158,7 @@ CHECKS.update({
  'C20': dict(
    text="(b) linking - translator + kernel-decided finite table: harness/linkgraph.py regenerates Knee/Generated/LinkTable.lean from /repo/src on every run (CPython ast + symtable; dir() and signatures of the "
         "installed modules) and Lean decides it: all_resolve (decide +kernel, no extra axiom), lifted by subsetSorted_sound to every_reference_resolves; the listed known-finding call site is PROVED to be an arity error "
-        "(known_bad_really_bad). (a) purity / determinism / layout independence - decided by observation only: ~100 public functions x {C, Fortran, strided view, int64} representations, deep argument snapshots, repeated calls.",
+        "(known_bad_really_bad). (a) purity / determinism / layout independence - decided by observation only: ~100 public functions x {C, Fortran, strided view, int64} representations, deep argument snapshots, repeated calls, and history independence: the results obtained after hundreds of earlier calls (sibling inputs: same sizes and index arguments, other curves) are compared with a fresh interpreter evaluating the same calls in reverse order.",
    note=TB + " (a) is partial: aliasing, in-place writes and hidden module state are runtime behaviour the value-level model cannot exhibit. Trusted for (b): CPython symtable/ast, hasattr/inspect.signature on the live modules.",
    tech="translator (ast+symtable) regenerating a finite link table decided by Lean's kernel (decide +kernel) + observational layout/purity harness",
    ref="DESIGN.md §3 C20"),
